@@ -17,6 +17,7 @@ def run(ctx):
     prog = ctx.program(UNITS, thorough_all=False)
     R.explanation = ("Decides, from the typed AST, that the hash mixing and combining steps perform no signed multiplication/addition/shift, that the short string is recomputed from the full string on every path, "
                      "and that the hex writer and reader agree on width and nibble order over the same eight words. Does not decide collision properties.")
+    R.rule("C27-R4", "one byte-mixing loop: every entry point hashes its bytes through the same (pointer, length) core", floor=2)
     R.rule("C27-R1", "no *, +, -, << on a signed integer type with non-constant operands in the hashing functions", floor=2)
     R.rule("C27-R2", "getString recomputed from getFullString on every path; 16-character prefix", floor=3)
     R.rule("C27-R3", "hex codec: 2 chars per byte, high nibble first, same 8 words", floor=6)
@@ -97,6 +98,43 @@ def run(ctx):
     R.ob("C27-R3", ok, "occa::hash_t", "words: int h[8]", "include/occa/utils/hash.hpp", "hash words are %s" % (hf[0]["t"] if hf else "?"), nontrivial=False)
     init = [n for n in fs_.walk() if write_target(n) is not None and render(strip(write_target(n)), False).endswith(".initialized")]
     R.ob("C27-R3", bool(init), fs_.q, "fromString: marks initialized", "%s:%d" % (fs_.relfile, fs_.d["line"]), "a parsed hash is initialized")
+
+    # ---- R4: equal bytes must give equal hashes whichever overload receives them -------------------------------------------------------------
+    def writes_state(f, depth=0):
+        for n in f.walk():
+            t = write_target(n)
+            if t is not None and any(x["k"] == "MemberExpr" and x.get("n") == "occa::hash_t::h" for x in walk(t)) or \
+                    (t is not None and strip(t)["k"] == "ArraySubscriptExpr" and any(x["k"] == "DeclRefExpr" and "int *" in f.type(x) for x in walk(t))):
+                return True
+        return False
+    helpers = {f.q for f in prog.funcs.values() if f.d.get("tmpl") != "inst" and f.d["file"].endswith("src/utils/hash.cpp") and not f.q.startswith("occa::hash_t::") and f.q != "occa::hash" and writes_state(f)}
+    mixers = []
+    for f in prog.fns("occa::hash"):
+        if f.d.get("tmpl") == "inst":
+            continue
+        loops = [n for n in f.walk() if n["k"] in ("ForStmt", "WhileStmt", "DoStmt", "CXXForRangeStmt") and not n.get("mac")]
+        inloop = False
+        for lp in loops:
+            for x in walk(lp):
+                t = write_target(x)
+                if t is not None and (any(y["k"] == "MemberExpr" and y.get("n") == "occa::hash_t::h" for y in walk(t)) or strip(t)["k"] == "ArraySubscriptExpr" and "int" in f.type(strip(t))):
+                    inloop = True
+                if is_call(x) and callee(x) in helpers:
+                    inloop = True
+        if inloop:
+            mixers.append(f)
+    sigs = [f.d["sig"] for f in mixers]
+    ok = len(mixers) == 1 and "const void *" in sigs[0]
+    R.ob("C27-R4", ok, "occa::hash", "byte-mixing loops: %d" % len(mixers), mixers[-1].site(kids(mixers[-1].d["body"])[0]) if mixers else "src/utils/hash.cpp",
+         "only hash(const void*, udim_t) mixes bytes into the state" if ok else
+         "%d overloads loop over their input themselves (%s): they can widen a byte differently (char vs unsigned char), so the same bytes with the top bit set hash differently through different entry points" % (len(mixers), sigs))
+    fw = 0
+    for f in prog.fns("occa::hash"):
+        if f.d.get("tmpl") == "inst" or f in mixers:
+            continue
+        if any(is_call(c) and callee(c) == "occa::hash" for c in f.walk()):
+            fw += 1
+    R.ob("C27-R4", fw >= 2, "occa::hash", "%d overloads forward to the core" % fw, "src/utils/hash.cpp", "strings and C strings are hashed as (data, size)", nontrivial=False)
 
 
 META = {
